@@ -15,7 +15,9 @@ import (
 func TestMain(m *testing.M) { pk.Main(m) }
 
 var contexts = []string{"loop", "while", "for-range", "for-list", "block", "if-then", "if-else", "match-arm", "match-default", "try", "catch", "fn", "lambda", "rec", "rec-try"}
-var exits = []string{"break", "continue", "return", "return-null", "throw-caught", "throw-uncaught", "fatal-div", "fatal-index", "none"}
+var exits = []string{"break", "continue", "return", "return-null", "throw-caught", "throw-uncaught", "fatal-div", "fatal-index", "none",
+	// a `return` whose VALUE does not complete: the exception belongs to the handlers around the return statement
+	"return-throwing-call", "return-throwing-block"}
 
 // ---- small AST helpers
 
@@ -194,6 +196,14 @@ func (b *builder) exitStmts(exit string) []hs.Stmt {
 		ex = hs.Return{X: il(7)}
 	case "return-null":
 		ex = hs.Return{}
+	case "return-throwing-call":
+		name := b.fresh("thrower")
+		b.fns = append(b.fns, hs.FnDef{Name: name, Params: []hs.Param{{Name: "x", T: hs.TInt}}, Ret: hs.TInt, Body: &hs.Block{T: hs.TInt, Tail: id("x", hs.TInt),
+			Stmts: []hs.Stmt{ifs(gt("x", 0), blk(hs.ExprStmt{X: hs.Call{Fn: hs.Ident{Name: "throw"}, Args: []hs.Expr{sl("boom")}, T: hs.TNever}}), nil)}}})
+		ex = hs.Return{X: hs.Infix{Op: "+", L: il(1), R: hs.Call{Fn: hs.Ident{Name: name, T: hs.TFn(hs.TInt, hs.TInt)}, Args: []hs.Expr{il(1)}, T: hs.TInt}, T: hs.TInt}}
+	case "return-throwing-block":
+		ex = hs.Return{X: &hs.Block{T: hs.TInt, Tail: il(1), Stmts: []hs.Stmt{say(sl("in-return-value")),
+			ifs(hs.BoolLit{V: true}, blk(hs.ExprStmt{X: hs.Call{Fn: hs.Ident{Name: "throw"}, Args: []hs.Expr{sl("boom")}, T: hs.TNever}}), nil)}}}
 	case "throw-caught", "throw-uncaught":
 		ex = hs.ExprStmt{X: hs.Call{Fn: hs.Ident{Name: "throw"}, Args: []hs.Expr{sl("boom")}, T: hs.TNever}}
 	case "fatal-div":
